@@ -247,6 +247,18 @@ def classify(sexp):
 
 
 MAX_MINIMISE = 12
+MAX_CORR = 4
+
+
+def corr_fail(ck, name, detail):
+    """a model/implementation disagreement: keep the first few per kind, count the others"""
+    k = "n:" + name
+    ck.stats[k] = ck.stats.get(k, 0) + 1
+    if ck.stats[k] <= MAX_CORR:
+        ck.obligation(name, "correspondence", False, detail)
+    else:
+        ck.count("more_disagreements:" + name)
+
 
 
 def report_direct(ck, origin, kind, dump, printed, detail, source=None):
@@ -258,7 +270,13 @@ def report_direct(ck, origin, kind, dump, printed, detail, source=None):
                      {"origin": origin, "kind": kind, "tree": dump[:4000], "printed": printed[:2000]})
         return
     ck.stats["minimised"] = ck.stats.get("minimised", 0) + 1
-    wits = minimise(dump) if (dump and ck.stats["minimised"] <= MAX_MINIMISE) else []
+    if ck.stats["minimised"] > MAX_MINIMISE:
+        # enough distinct witnesses have been minimised and reported: only count the others
+        ck.count("direct_oracle_failures_not_minimised")
+        ck.violation("roundtrip:more", "further failing cases of the direct oracle (not minimised, see the evidence counters)",
+                     {"origin": origin, "kind": kind, "tree": dump[:4000], "printed": printed[:2000]})
+        return
+    wits = minimise(dump) if dump else []
     if not wits:
         wits = [dump or ""]
     for w in wits[:3]:
@@ -367,16 +385,14 @@ def tie_on_asts(ck, exe_model, sexps, in_image, label):
             continue
         # 2. panic behaviour
         if (istatus == "PANIC") != (mstatus == "PANIC"):
-            ck.obligation("correspondence:printer-panic", "correspondence", False,
-                          "tree %s\nimpl %s\nmodel %s" % (s[:400], istatus, mstatus))
+            corr_fail(ck, "correspondence:printer-panic", "tree %s\nimpl %s\nmodel %s" % (s[:400], istatus, mstatus))
             continue
         if istatus == "PANIC":
             ck.count(label + ":both_panic")
             continue
         # 3. tokens (how literal text is cut into literal tokens is not meaningful: fuse them)
         if fuse_lits(itoks) != fuse_lits(mtoks):
-            ck.obligation("correspondence:print-tokens", "correspondence", False,
-                          "tree  %s\nimpl  %s\nmodel %s\ntext  %s" % (s[:600], itoks[:600], mtoks[:600], iprinted[:300]))
+            corr_fail(ck, "correspondence:print-tokens", "tree  %s\nimpl  %s\nmodel %s\ntext  %s" % (s[:600], itoks[:600], mtoks[:600], iprinted[:300]))
             continue
         # 4. what re-parsing gives
         mparsed = "NONE" if mstatus == "NONE" else (s if mstatus == "OK" else (unesc(b[2]) if len(b) > 2 else "?"))
@@ -389,8 +405,7 @@ def tie_on_asts(ck, exe_model, sexps, in_image, label):
             if want == "NONE" and not in_image:
                 ck.count(label + ":impl_rejects_model_accepts")
                 continue
-            ck.obligation("correspondence:parse-of-printed", "correspondence", False,
-                          "tree  %s\nimpl  %s\nmodel %s" % (s[:500], want[:500], norm_dump(mparsed)[:500]))
+            corr_fail(ck, "correspondence:parse-of-printed", "tree  %s\nimpl  %s\nmodel %s" % (s[:500], want[:500], norm_dump(mparsed)[:500]))
 
 
 def tie_on_parse(ck, exe_model, sources, label):
@@ -417,8 +432,7 @@ def tie_on_parse(ck, exe_model, sources, label):
             continue
         if norm_dump(got) != norm_dump(dump):
             ck.count(label + ":disagree")
-            ck.obligation("correspondence:parser", "correspondence", False,
-                          "source %s\ntokens %s\nimpl   %s\nmodel  %s" % (origin, toks[:500], dump[:500], got[:500]))
+            corr_fail(ck, "correspondence:parser", "source %s\ntokens %s\nimpl   %s\nmodel  %s" % (origin, toks[:500], dump[:500], got[:500]))
         else:
             ck.count(label + ":agree")
 
